@@ -11,6 +11,7 @@ from framework import graph_replay
 # internal specification actions are part of the public call that contains them
 MERGE = r"(BodyResume|BodyStep|FinalSuspend|YieldSuspend|UnblockSync|UnblockFuture|ResumeAwt|SyncReturn)$"
 KEEP = ("alive", "bscript", "bst", "cscript", "got", "it", "loc", "obs", "par")
+SYNC_STEPS = ("yield", "ynull", "throw", "return")
 
 
 def proj(st):
@@ -23,6 +24,10 @@ def proj(st):
         d["pr"] = p
     else:
         d["pr"] = {}     # the record died with the coroutine frame
+    # C20: as long as the body is synchronous no access allocates (operator new calls made inside the accesses,
+    # counted by the replayer; the coroutine frames are created outside)
+    if all(k in SYNC_STEPS for k in st["bscript"]):
+        d["allocs"] = 0
     return d
 
 
@@ -106,11 +111,11 @@ def run(ctx):
     S3 = '{"sync", "coawait", "future"}'
     # (cfg, tag, with argument, replay modes, constant overrides quick, constant overrides thorough); None = tier skips it
     jobs = [
-        ("Generator_noarg.cfg", "noarg", False, ["native", "coro"], {},
+        ("Generator_noarg.cfg", "noarg", False, ["native", "coro", "cb"], {},
          {"MaxBody": 5, "MaxAcc": 5, "MaxAfterEnd": 1}),
-        ("Generator_noarg.cfg", "noarg_deep", False, ["native", "coro"], None,
+        ("Generator_noarg.cfg", "noarg_deep", False, ["native", "coro", "cb"], None,
          {"MaxBody": 6, "MaxAcc": 6, "MaxAfterEnd": 1, "Styles": S3, "BodyKinds": '{"yield", "apend", "throw", "return"}'}),
-        ("Generator_arg.cfg", "arg", True, ["native", "coro"], {},
+        ("Generator_arg.cfg", "arg", True, ["native", "coro", "cb"], {},
          {"MaxBody": 5, "MaxAcc": 5}),
         ("Generator_thr.cfg", "thr", False, ["thr_late", "thr_early"], {},
          {"MaxAcc": 4, "MaxAfterEnd": 2}),
